@@ -6,7 +6,7 @@ Import ListNotations.
 Local Open Scope nat_scope.
 
 Definition nreach reopen c0 tail tr s := run (nstep reopen true) (nok (pre_of c0 tail)) (ninit c0 tail) tr s.
-Definition preach reopen c0 tail tr s := run (pstep reopen) (pok (pre_of c0 tail)) (pinit c0 tail) tr s.
+Definition preach reopen c0 tail tr s := run (pstep reopen true) (pok (pre_of c0 tail)) (pinit c0 tail) tr s.
 
 Section N.
 Variables (reopen : bool) (c0 : option bytes) (tail : bool) (tr : list label) (s : nstate).
@@ -53,9 +53,21 @@ Lemma m_poll_offset : (forall i off, pfd s = Some (i, off) -> rb s = off) /\ (pf
 Proof. split; [intros i off F; symmetry; exact (qO _ _ _ I i off F)|intros F; apply (qN _ _ _ I F)]. Qed.
 Lemma m_blocks_poll : ppcs s = PEnded -> reopen = false /\ past (penv s) <> [].
 Proof. exact (qE _ _ _ I). Qed.
-Lemma m_remove_ends_poll : reopen = false -> present (penv s) = false -> ppcs s = PStat ->
-  past (penv s) <> [] /\ exists s', pstep reopen s LEof s'.
-Proof. intros Hr Hp Hs. split; [exact (qM _ _ _ I Hr Hp)|]. eexists. apply p_stat_gone; auto. Qed.
+Lemma m_remove_ends_poll : reopen = false -> ppcs s = PStat ->
+  forall i off, pfd s = Some (i, off) -> i < length (past (penv s)) ->
+  (exists s', pstep reopen true s LEof s' /\ ppcs s' = PEnded) /\
+  (forall l s', is_env l = false -> pstep reopen true s l s' -> l = LEof /\ ppcs s' = PEnded).
+Proof.
+  intros Hr Hs i off F L.
+  assert (plain_sees true (penv s) (pfd s) = false) as G.
+  { unfold plain_sees, still_open. rewrite F. cbn. unfold ino.
+    replace (i =? length (past (penv s))) with false by (symmetry; apply Nat.eqb_neq; lia). apply andb_false_r. }
+  split.
+  - eexists. split; [apply p_stat_gone; auto|reflexivity].
+  - intros l s' E St. inversion St; subst; try congruence; try discriminate.
+    + rewrite (estep_env_label _ _ _ H) in E. discriminate.
+    + split; reflexivity.
+Qed.
 Lemma m_reopen_poll :
   (forall i off, pfd s = Some (i, off) ->
      pre_of c0 tail ++ pdel s = concat (firstn i (past (penv s))) ++ firstn off (content (penv s) i)) /\
@@ -63,7 +75,7 @@ Lemma m_reopen_poll :
 Proof. split; [exact (qP _ _ _ I)|intros F; apply (qN _ _ _ I F)]. Qed.
 End P.
 
-Lemma m_ended_silent_poll reopen s l s' : ppcs s = PEnded -> pstep reopen s l s' -> is_env l = true.
+Lemma m_ended_silent_poll reopen rp s l s' : ppcs s = PEnded -> pstep reopen rp s l s' -> is_env l = true.
 Proof. intros He St. inversion St; subst; try congruence; [eapply estep_env_label; eauto|reflexivity]. Qed.
 
 (* ------------------------------------------------------------------ eventual delivery (Proofs/FollowLive.v) *)
@@ -109,19 +121,19 @@ Hypothesis R : preach reopen c0 tail tr s.
 Let I := pinv_run reopen c0 tail new_ok tr s R.
 
 Lemma m_measure_poll : forall off l s', pfd s = Some (ino (penv s), off) -> present (penv s) = true ->
-  off < length (curc (penv s)) -> is_env l = false -> pstep reopen s l s' ->
+  off < length (curc (penv s)) -> is_env l = false -> pstep reopen true s l s' ->
   pmu (pre_of c0 tail) s' < pmu (pre_of c0 tail) s.
 Proof. intros off l s'. apply pmeasure. exact I. Qed.
 Lemma m_progress_poll : forall off, pfd s = Some (ino (penv s), off) -> present (penv s) = true ->
-  off < length (curc (penv s)) -> ppcs s <> PEnded -> exists l s', is_env l = false /\ pstep reopen s l s'.
+  off < length (curc (penv s)) -> ppcs s <> PEnded -> exists l s', is_env l = false /\ pstep reopen true s l s'.
 Proof. intros off. apply pprogress. Qed.
 Lemma m_eventual_poll : fd_current (penv s) (pfd s) = true -> ppcs s <> PEnded ->
-  must (pstep reopen) (pdrained c0 tail) (pmu (pre_of c0 tail) s) s.
+  must (pstep reopen true) (pdrained c0 tail) (pmu (pre_of c0 tail) s) s.
 Proof. intros Fc Ne. apply pmust; [apply Nat.le_refl|exact I|split; assumption]. Qed.
 Lemma m_eventual_reopen_poll : reopen = true -> fd_current (penv s) (pfd s) = false -> present (penv s) = true ->
   0 < size (penv s) -> size (penv s) < rb s \/ rb s = 0 ->
   pre_of c0 tail ++ pdel s = concat (past (penv s)) ->
-  must (pstep reopen) (pdrained c0 tail) (cw s + 4 * undel (pre_of c0 tail) (penv s) (pdel s)) s.
+  must (pstep reopen true) (pdrained c0 tail) (cw s + 4 * undel (pre_of c0 tail) (penv s) (pdel s)) s.
 Proof.
   intros Ro Fc Pp Sz Lt Dl. apply pcold_must; [apply Nat.le_refl|exact I|].
   repeat split; auto. intros X. destruct (qE _ _ _ I X) as [Y _]. congruence.
@@ -142,9 +154,8 @@ Lemma siblings_model i :
   model (mkcin (i_poll i) (i_reopen i) (i_tail i) (i_c0 i) (filter (fun l => negb (is_sibling l)) (i_hist i))) = model i.
 Proof.
   unfold model, expected, expected_term. cbn [i_reopen i_c0 i_tail i_hist].
-  assert (forall h, flat_map (fun l => match l with LAppend b => b | _ => [] end) (filter (fun l => negb (is_sibling l)) h)
-                    = flat_map (fun l => match l with LAppend b => b | _ => [] end) h) as A.
-  { induction h as [|l h IH]; [reflexivity|]. destruct l; cbn; rewrite ?IH; reflexivity. }
+  assert (forall ro h rm, wanted ro rm (filter (fun l => negb (is_sibling l)) h) = wanted ro rm h) as A.
+  { induction h as [|l h IH]; intros rm; [reflexivity|]. destruct l; cbn; rewrite ?IH; reflexivity. }
   assert (forall h, existsb is_remove (filter (fun l => negb (is_sibling l)) h) = existsb is_remove h) as B.
   { induction h as [|l h IH]; [reflexivity|]. destruct l; cbn; rewrite ?IH; reflexivity. }
   rewrite A, B. reflexivity.
@@ -154,5 +165,35 @@ Lemma sibling_step_notify ro rp s s' : nstep ro rp s LSibling s' ->
   nenv s' = nenv s /\ nfd s' = nfd s /\ npcs s' = npcs s /\ sigW s' = sigW s /\ sigD s' = sigD s /\ ndel s' = ndel s /\
   queue s' = queue s ++ [EvOther].
 Proof. intros St. inversion St; subst; [inversion H|cbn; repeat split; reflexivity]. Qed.
-Lemma sibling_step_poll ro s s' : pstep ro s LSibling s' -> s' = s.
+Lemma sibling_step_poll ro rp s s' : pstep ro rp s LSibling s' -> s' = s.
 Proof. intros St. inversion St; subst; [inversion H|reflexivity]. Qed.
+
+(* ------------------------------------------------------------------ the plain-follow Stat rule as found *)
+(* finding C15-poll-plain-recreate (fixed): with the rule as found (flag false: os.Stat succeeds => go on) a
+   removal followed by a re-creation of the path before the poller looks is never noticed: the state below is
+   reachable (file delivered, removed after drain, path re-created, poller about to Stat, its descriptor on the
+   removed file), and from it no sequence of reader steps ends the stream *)
+Lemma poll_plain_asfound_never_ends :
+  exists tr s, run (pstep false false) (pok []) (pinit (Some cAB) false) tr s /\
+    ppcs s = PStat /\ pfd s = Some (0, 2) /\ past (penv s) = [cAB] /\ present (penv s) = true /\
+    forall tr' s', run (pstep false false) (fun _ l => is_env l = false) s tr' s' -> ppcs s' <> PEnded.
+Proof.
+  eexists. eexists. split; [|split; [|split; [|split; [|split]]]].
+  - unfold pinit, env0, fd0, start_of, cAB. cbn.
+    p_data [65%N; 66%N] (@nil N). p_env ltac:(eapply e_remove). p_env ltac:(eapply e_create). p_giveup.
+    apply run0.
+  - reflexivity.
+  - reflexivity.
+  - reflexivity.
+  - reflexivity.
+  - intros tr' s' R.
+    match type of R with run _ _ ?s0 _ _ => remember s0 as st0 eqn:E0 end.
+    assert (present (penv st0) = true /\ ppcs st0 <> PEnded) as Hs by (subst st0; cbn; split; [reflexivity|intros X; discriminate X]).
+    clear E0. apply proj2 with (A := present (penv s') = true).
+    induction R as [|s0 t s1 l s2 R IH Ok St]; [exact Hs|]. destruct (IH Hs) as [Pp Ne]. clear IH.
+    destruct (pstep_env _ _ _ _ _ St) as [X|[X _]].
+    + rewrite (estep_env_label _ _ _ X) in Ok. discriminate.
+    + rewrite X. split; [exact Pp|]. inversion St; subst; cbn [ppcs]; try congruence; try discriminate.
+      * destruct (rb s1 <=? sz); cbn [ppcs]; discriminate.
+      * exfalso. match goal with Hg : plain_sees false _ _ = false |- _ => cbn in Hg; congruence end.
+Qed.
